@@ -1,26 +1,20 @@
 ----------------------------- MODULE MC_strings -----------------------------
 (* Bounded model of the string/counter family (C02). *)
-EXTENDS MCBase
+EXTENDS Universe
 
-ka == B("a")
-kb == B("b")
-x == B("x")
 Keys == {ka, kb}
-N(i) == Itoa(i)
 MaxI == B("9223372036854775807")
 MinI == B("-9223372036854775808")
 Now0 == 1000000
 Fut == Now0 + 500000
-StrU == {B(""), x, B("abc"), N(10), N(-1), MaxI, MinI, B("0.5"), B("ab c")}
+StrU == {B(""), x, B("abc"), N(10), N(-1), MaxI, MinI, B("9223372036854775806"), B("-9223372036854775807"), B("0.5"), B("ab c")}
 ValA == {VStr(s, 0) : s \in StrU} \cup {VStr(x, Fut), VStr(N(10), Fut), VList(<<x>>, 0), VHash((x :> x), 0)}
 ValB == {VStr(x, 0), VStr(B("abd"), 0), VStr(N(3), Fut), VList(<<x>>, 0)}
 Dbs0 == UNION {{(ka :> va) @@ (kb :> vb) : va \in ValA, vb \in ValB}, {(ka :> va) : va \in ValA}, {(kb :> vb) : vb \in ValB}, {EmptyDb}}
 StrStates == {WithDb0(InitServer({1}), d) : d \in Dbs0}
 
-C(name, args) == <<B(name)>> \o args
 \* INCRBYFLOAT on +-2^63 is numeric accuracy (float64 vs long double), not claimed
-StrRelevant(s, cmd) == ~(CmdName(cmd) = "INCRBYFLOAT" /\ ka \in DOMAIN s.dbs[0] /\ s.dbs[0][ka] \in {VStr(MaxI, 0), VStr(MinI, 0)})
-W(s) == B(s)
+StrRelevant(s, cmd) == ~(CmdName(cmd) = "INCRBYFLOAT" /\ ka \in DOMAIN s.dbs[0] /\ s.dbs[0][ka].ty = "string" /\ Len(s.dbs[0][ka].s) > 9)
 SetOptU == { <<>>, <<W("NX")>>, <<W("XX")>>, <<W("GET")>>, <<W("nx")>>, <<W("KEEPTTL")>>, <<W("keepttl")>>,
              <<W("EX"), N(100)>>, <<W("px"), N(100000)>>, <<W("EXAT"), TMark(Fut)>>, <<W("PXAT"), MMark(Fut)>>,
              <<W("NX"), W("GET")>>, <<W("GET"), W("XX")>>, <<W("EX"), N(100), W("NX")>>, <<W("NX"), W("EX"), N(100)>>,
@@ -31,7 +25,7 @@ SetOptU == { <<>>, <<W("NX")>>, <<W("XX")>>, <<W("GET")>>, <<W("nx")>>, <<W("KEE
              <<W("XX"), W("GET"), W("KEEPTTL")>>, <<W("KEEPTTL"), W("XX"), W("GET")>>, <<W("GET"), W("EX"), N(100), W("NX")>>,
              <<W("KEEPTTL"), W("GET"), W("XX")>>, <<W("NX"), W("EX"), N(100), W("GET")>>, <<W("EX"), N(100), W("XX"), W("GET")>> }
 Rng == {N(i) : i \in {-100, -4, -3, -2, -1, 0, 1, 2, 3, 100}}
-Incs == {N(1), N(-1), N(0), N(5), MaxI, MinI, x, B("1.5"), B("")}
+Incs == {N(1), N(-1), N(0), N(5), N(2), N(-2), MaxI, MinI, B("9223372036854775797"), B("-9223372036854775807"), x, B("1.5"), B("")}
 
 StrCmds ==
     UNION {
